@@ -258,7 +258,17 @@ def shares_buffer(a, b):
 
 
 def oracle(run, which, case, pop, before, pop_ids_before, outcome, varied_ids, lam, cxpb, mutpb, draws):
-    """The statement of C02 evaluated on one call.  before: {id(parent): deep_snapshot}."""
+    """The statement of C02 evaluated on one call; objects that cannot even be inspected as individuals
+    (no fitness, fitness without values, ...) are a violation, not a crash of the check."""
+    try:
+        _oracle(run, which, case, pop, before, pop_ids_before, outcome, varied_ids, lam, cxpb, mutpb, draws)
+    except Exception as e:      # noqa
+        run.oracle_violation("%s returned objects that cannot be inspected as individuals (%s: %s)"
+                             % (which, type(e).__name__, e), case)
+
+
+def _oracle(run, which, case, pop, before, pop_ids_before, outcome, varied_ids, lam, cxpb, mutpb, draws):
+    """before: {id(parent): deep_snapshot}."""
     def bad(what, **obs):
         run.oracle_violation(what, case, observed=obs or None)
 
@@ -283,6 +293,10 @@ def oracle(run, which, case, pop, before, pop_ids_before, outcome, varied_ids, l
         bad("%s raised %s instead of returning the requested offspring" % (which, val))
         return
     off = val
+    if not isinstance(off, list) or any(not isinstance(getattr(getattr(o, "fitness", None), "valid", None), bool) for o in off):
+        bad("%s returned something that is not a list of individuals carrying a fitness" % which,
+            types=[type(o).__name__ for o in off][:8] if isinstance(off, list) else type(off).__name__)
+        return
     # (2) exactly the requested number, all different objects
     want = len(pop) if which == "varAnd" else max(int(lam), 0)
     if len(off) != want:
@@ -728,6 +742,6 @@ def main(run):
     run.build_props()
     terms, cases = [], []
     instrumented_cases(run, terms, cases)
+    run.correspond("variation", "C02", terms, cases, requires=["From Coq Require Import PrimFloat."])
     nreal = real_operator_runs(run)
     run.extra_cov["real_operator_runs"] = nreal
-    run.correspond("variation", "C02", terms, cases, requires=["From Coq Require Import PrimFloat."])
